@@ -294,9 +294,14 @@ Theorem C12_values_dup :
 Proof. exact values_dup. Qed.
 Print Assumptions C12_values_dup.
 
-(* REFUTED without comparability (C11's comparison): {"IpAddress": {k: ["10.0.0.0/8", "::/0"]}} on k = 10.1.1.1/32 is
-   True, with the two values swapped it is None (subnet_of across IP versions raises first); hence also: adding the
-   value "::/0" in front of ["10.0.0.0/8"] turns True into None *)
+(* REFUTED without comparability (C11's comparison): {"DateLessThan": {k: ["2030-01-01T00:00:00Z", "2030-01-01T00:00:00"]}} on
+   k = 2020-01-01T00:00:00Z is True, with the two values swapped it is None (aware < naive raises first); hence also: adding the
+   naive value in front of the aware one turns True into None.
+   FINDING F30 came from this refutation: as first proved its witness was {"IpAddress": {k: ["10.0.0.0/8", "::/0"]}} on
+   k = 10.1.1.1/32 (True; swapped: None, subnet_of across IP versions raised first) -- an entirely ordinary policy, AWS's own
+   examples list IPv4 and IPv6 ranges under one key.  Replayed on the library it failed, the library was repaired (/repo ea4be28: a
+   value of the other IP version is outside the network), the model followed, and the IP operators are now order-blind:
+   C12_ip_values_order_blind below. *)
 Theorem C12_values_order_refuted :
   exists o ps qs c, negated o = false /\ Permutation ps qs /\
     value_ok (op_test Witness.idf) o ps c = Some true /\ value_ok (op_test Witness.idf) o qs c = None.
@@ -317,7 +322,7 @@ Print Assumptions C12_values_order_refuted_date.
 
 (* ... and those are the only two operator groups where it can fail: if the listed values agree on whether the context
    value can be compared at all (uniform_vals), the value list is a set unconditionally; with C11's comparison every
-   operator except IpAddress / NotIpAddress / the four Date orderings is such, for policy values of its type *)
+   operator except the four Date orderings is such, for policy values of its type (since fix F30 the IP operators too) *)
 Theorem C12_values_set_uniform :
   forall (test : base_op -> cval -> cval -> option bool) (o : base_op) (ps qs : list cval) (c : cval),
     uniform_vals test o ps c -> (forall p, In p ps <-> In p qs) -> value_ok test o ps c = value_ok test o qs c.
@@ -338,6 +343,22 @@ Theorem C12_values_set_typed :
 Proof. exact typed_values_set. Qed.
 Print Assumptions C12_values_set_typed.
 
+(* since fix F30: ranges of both IP versions under one key are alternatives in ANY order, undetermined case included *)
+Theorem C12_ip_values_order_blind :
+  forall (fold : str -> str) (o : base_op) (ps qs : list cval) (c : cval),
+    (o = OIpAddress \/ o = ONotIpAddress) -> (forall p, In p ps -> has_fam (family o) p = true) -> (forall p, In p ps <-> In p qs) ->
+    value_ok (op_test fold) o ps c = value_ok (op_test fold) o qs c.
+Proof. exact Witness.ip_values_order_blind. Qed.
+Print Assumptions C12_ip_values_order_blind.
+Example C12_ex_ip_mixed_versions_any_order :
+  value_ok (op_test Witness.idf) OIpAddress [Witness.net10; Witness.net6all] Witness.host10 = Some true /\
+  value_ok (op_test Witness.idf) OIpAddress [Witness.net6all; Witness.net10] Witness.host10 = Some true /\
+  value_ok (op_test Witness.idf) OIpAddress [Witness.net10; Witness.net6all] (CNet (Net V6 1 128)) = Some true /\
+  value_ok (op_test Witness.idf) ONotIpAddress [Witness.net6all; Witness.net10] Witness.host10 = Some false.
+Proof. exact Witness.ip_mixed_versions_any_order. Qed.
+
+(* for a NEGATED operator the order can matter only with a policy value outside the operator's type (a number under a string
+   operator: pydantic does not produce such a block) *)
 Theorem C12_negated_values_order_refuted :
   exists o ps qs c, negated o = true /\ Permutation ps qs /\
     value_ok (op_test Witness.idf) o ps c = Some false /\ value_ok (op_test Witness.idf) o qs c = None.
